@@ -266,8 +266,38 @@ def run_real(scens, wd, tag, timeout=2400):
         st = json.loads(p.stdout.strip().splitlines()[-1])
     except Exception:
         raise Inconclusive("verifreplay produced no statistics: %s" % (p.stderr or p.stdout)[-2000:])
-    if p.returncode == 3 or st.get("failures") or st.get("errors"):
-        raise Inconclusive("verifreplay harness failure: %s %s" % (st.get("failures"), st.get("errors")))
+    fails = list(st.get("failures") or [])
+    # "channel mirror out of range": the middleware's own counters (checkpoints_written - dropped_reports) claim that
+    # more reports entered the 1-buffered channel than it can hold, i.e. a checkpoint got neither a report nor a
+    # counted drop. That is not a harness failure but an observation of the code under test (C18c); the scenario
+    # stops there. It is turned into a violation by the caller (C18) or noted (C16/C17).
+    mirror = [f for f in fails if "channel mirror out of range" in f]
+    rest = [f for f in fails if "channel mirror out of range" not in f]
+    # "watchdog" while waiting for a report the counters promised: re-run the scenario alone twice; if the report
+    # never arrives in any run it is an observation (a checkpoint with neither a report nor a counted drop), else a flake
+    wd_fail = [f for f in rest if f.endswith("watchdog") and "step finish" in f or "step await" in f]
+    if wd_fail and tag != "retry":
+        byid_ = {s["id"]: s for s in scens}
+        confirmed = []
+        for f in wd_fail[:3]:
+            sid = f.split(":")[0]
+            again = 0
+            for k in range(2):
+                try:
+                    _, st2 = run_real([byid_[sid]], wd, "retry")
+                    if st2.get("mirror") or st2.get("watchdog_confirmed"):
+                        again += 1
+                except Inconclusive as e:
+                    if "watchdog" in str(e):
+                        again += 1
+            if again == 2:
+                confirmed.append(sid + ": a report announced by the counters was never delivered (watchdog, reproduced 3 times)")
+        if confirmed:
+            mirror += confirmed
+            rest = [f for f in rest if f not in wd_fail]
+    st["mirror"] = mirror
+    if (p.returncode == 3 and not mirror) or rest or st.get("errors"):
+        raise Inconclusive("verifreplay harness failure: %s %s" % (rest or fails, st.get("errors")))
     return tp, st
 
 
@@ -430,17 +460,17 @@ def check(pid, tier, seed):
     evs, by = index_trace(trace)
     tl["judge"] = {"states": jr.generated, "wall_s": round(jr.wall, 1)}
     # ------------------------------------------------------------ self-tests (vacuity guards)
-    bad = check_selftests(by)
-    if bad:
-        raise Inconclusive(bad)
+    # The guards can only turn a would-be OK into "inconclusive": a violation found on the real code is reported
+    # even if a self-test scenario (which runs the same code under test) misbehaves.
+    guard_failure = check_selftests(by)
     doctored = [v for v in viols if v["id"] == "st-doctored"]
-    if not any(v["clause"] == "C17_Missed" for v in doctored):
-        raise Inconclusive("the judge accepted a trace in which a corrupted range was reported as verified")
+    if not guard_failure and not any(v["clause"] == "C17_Missed" for v in doctored):
+        guard_failure = "the judge accepted a trace in which a corrupted range was reported as verified"
     viols = [v for v in viols if v["id"] != "st-doctored"]
     need = {"C16": ("eq", "lacks", "range"), "C17": ("div", "inflight", "storage"), "C18": ("afterdrop", "blockedstores", "refused", "probes")}[pid]
     empty = [k for k in need if stat.get(k, 0) == 0]
-    if empty:
-        raise Inconclusive("vacuous run: no real-code observation exercised %s" % empty)
+    if empty and not guard_failure:
+        guard_failure = "vacuous run: no real-code observation exercised %s" % empty
     # ------------------------------------------------------------ verdict
     mine = [v for v in viols if v["clause"] in CLAUSES[pid]]
     others = [v for v in viols if v["clause"] not in CLAUSES[pid]]
@@ -462,6 +492,23 @@ def check(pid, tier, seed):
         else:
             paths.append(rp)
             log("VIOLATION", pid, sig, "x%d" % len(vs), rp)
+    if hst.get("mirror"):
+        sig = {"clause": "C18c_ChannelAccounting", "msg": "checkpoints_written - dropped_reports exceeds what the 1-buffered channel can hold"}
+        if pid == "C18":
+            sid = hst["mirror"][0].split(":")[0]
+            rp = save_replay(pid, {"property": pid, "kind": "verifier", "module": "checks_verifier", "signature": sig,
+                                   "count": len(hst["mirror"]), "clause": sig["clause"], "event": {"msg": hst["mirror"][0]},
+                                   "scenario": byid.get(sid)})
+            f = match_finding(pid, sig)
+            if f:
+                known.append("%s (%d occurrences; e.g. replay=%s)" % (f["what"], len(hst["mirror"]), rp))
+            else:
+                paths.append(rp)
+                log("VIOLATION", pid, sig, "x%d" % len(hst["mirror"]), rp)
+        else:
+            others = others + [{"clause": "C18c_ChannelAccounting", "id": "mirror", "line": 0}] * len(hst["mirror"])
+    if guard_failure and not paths:
+        raise Inconclusive(guard_failure)
     withrep = {sid for sid, l in by.items() if any(e["ev"] == "report" for ln, e in l)}
     distinct = len({json.dumps(byid[sid]["steps"], sort_keys=True) for sid in withrep if sid in byid})
     # behaviours of a design run that explores every goroutine schedule (Eager=FALSE) cannot be forced on the real
